@@ -41,4 +41,13 @@ let () = main_loop (fun x ->
      | Ok (st, out) ->
        L [A "ok"; state_sx st;
           L (List.map (fun (orig, iss) -> L [nat_sx orig; L (List.map issue_sx iss)]) out)])
+  | A "S" :: fx :: files ->
+    (* several files on one SpreadsheetValidator object: (S fixed (row ...) (row ...) ...) *)
+    let fs = List.map (fun f -> List.map sx_row (sx_list f)) files in
+    L (A "ok" :: List.map (fun r -> match r with
+        | Exn e -> L [A "exn"; exn_sx e]
+        | Ok (st, out) ->
+          L [A "ok"; state_sx st;
+             L (List.map (fun (orig, iss) -> L [nat_sx orig; L (List.map issue_sx iss)]) out)])
+      (validate_seq (sx_bool fx) None fs))
   | _ -> failwith "bad-input")
